@@ -29,10 +29,16 @@ var (
 )
 
 func register() {
-	registerOnce.Do(func() {
-		client.RegisterTest(implType, scriptCtor)
-		client.RegisterTest(decoyType, decoyCtor)
-	})
+	registerOnce.Do(registerScripted)
+}
+
+// registerScripted registers the scripted transport once per Go shape (shape.go),
+// each under a client type name of its own, and the decoy type.
+func registerScripted() {
+	for _, shape := range implShapes {
+		client.RegisterTest(shapedType(shape), shapedCtor(shape))
+	}
+	client.RegisterTest(decoyType, decoyCtor)
 }
 
 // scriptCtor / decoyCtor are the registered constructors (named so that the
